@@ -1,0 +1,341 @@
+//! Child module of `service_daemon` holding the simulation seams (verification only).
+//!
+//! It is a child module so that it may read `Zeroconf`'s private fields without widening any
+//! visibility. It contains no protocol logic: shims forward to the real object unless a
+//! simulation controller is installed in the current thread.
+use super::*;
+use crate::verif::{self, InPkt, OutPkt};
+use socket2::SockAddr;
+use socket_pktinfo::PktInfo;
+use std::fmt::Write as _;
+use std::net::{Ipv4Addr, Ipv6Addr};
+
+/// Shadows the `fastrand` crate for the two probe-jitter call sites.
+pub(super) mod fastrand {
+    pub fn u64(r: std::ops::Range<u64>) -> u64 {
+        match crate::verif::current() {
+            Some(c) => c.rand(r),
+            None => ::fastrand::u64(r),
+        }
+    }
+}
+
+/// Plain wrappers of the private name helpers (for component-level checks).
+pub mod names {
+    pub fn name_change(original: &str) -> String {
+        super::super::name_change(original)
+    }
+    pub fn hostname_change(original: &str) -> String {
+        super::super::hostname_change(original)
+    }
+    pub fn check_service_name(fullname: &str) -> crate::Result<()> {
+        super::super::check_service_name(fullname)
+    }
+    pub fn check_hostname(hostname: &str) -> crate::Result<()> {
+        super::super::check_hostname(hostname)
+    }
+    pub fn check_domain_suffix(name: &str) -> crate::Result<()> {
+        super::super::check_domain_suffix(name)
+    }
+    pub fn check_service_name_length(ty_domain: &str, limit: u8) -> crate::Result<()> {
+        super::super::check_service_name_length(ty_domain, limit)
+    }
+    pub fn valid_instance_name(name: &str) -> bool {
+        super::super::valid_instance_name(name)
+    }
+}
+
+fn prefix_mask_v4(p: u8) -> Ipv4Addr {
+    let m: u32 = if p == 0 {
+        0
+    } else {
+        u32::MAX << (32 - p as u32)
+    };
+    Ipv4Addr::from(m)
+}
+fn prefix_mask_v6(p: u8) -> Ipv6Addr {
+    let m: u128 = if p == 0 {
+        0
+    } else {
+        u128::MAX << (128 - p as u32)
+    };
+    Ipv6Addr::from(m)
+}
+
+pub(super) fn get_if_addrs() -> std::io::Result<Vec<Interface>> {
+    let Some(ctl) = verif::current() else {
+        return ::if_addrs::get_if_addrs();
+    };
+    Ok(ctl
+        .intfs()
+        .into_iter()
+        .map(|i| Interface {
+            name: i.name,
+            addr: match i.ip {
+                IpAddr::V4(ip) => IfAddr::V4(::if_addrs::Ifv4Addr {
+                    ip,
+                    netmask: prefix_mask_v4(i.prefix),
+                    prefixlen: i.prefix,
+                    broadcast: None,
+                }),
+                IpAddr::V6(ip) => IfAddr::V6(::if_addrs::Ifv6Addr {
+                    ip,
+                    netmask: prefix_mask_v6(i.prefix),
+                    prefixlen: i.prefix,
+                    broadcast: None,
+                }),
+            },
+            index: Some(i.index),
+            oper_status: if i.up {
+                ::if_addrs::IfOperStatus::Up
+            } else {
+                ::if_addrs::IfOperStatus::Down
+            },
+            is_p2p: i.p2p,
+        })
+        .collect())
+}
+
+pub(super) fn sim_bind_addr(addr: SocketAddr) -> SocketAddr {
+    if verif::current().is_none() {
+        return addr;
+    }
+    match addr {
+        SocketAddr::V4(_) => SocketAddrV4::new(Ipv4Addr::LOCALHOST, 0).into(),
+        SocketAddr::V6(_) => SocketAddrV6::new(Ipv6Addr::LOCALHOST, 0, 0, 0).into(),
+    }
+}
+
+pub(super) struct RecvShim<'a> {
+    pub(super) pktinfo: RecvInner<'a>,
+}
+pub(super) struct RecvInner<'a> {
+    real: &'a PktInfoUdpSocket,
+    v4: bool,
+}
+impl<'a> RecvShim<'a> {
+    pub(super) fn new(sock: &'a mut MyUdpSocket, event_key: usize) -> Self {
+        Self {
+            pktinfo: RecvInner {
+                real: &sock.pktinfo,
+                v4: event_key == IPV4_SOCK_EVENT_KEY,
+            },
+        }
+    }
+}
+impl RecvInner<'_> {
+    pub(super) fn recv(&self, buf: &mut [u8]) -> io::Result<(usize, PktInfo)> {
+        let Some(ctl) = verif::current() else {
+            return self.real.recv(buf);
+        };
+        let Some(InPkt {
+            data,
+            if_index,
+            src,
+        }) = ctl.pop_ingress(self.v4)
+        else {
+            return Err(io::ErrorKind::WouldBlock.into());
+        };
+        // Mimic recv(2): copy at most buf.len() bytes, report the copied size.
+        let n = data.len().min(buf.len());
+        buf[..n].copy_from_slice(&data[..n]);
+        Ok((
+            n,
+            PktInfo {
+                if_index: if_index as u64,
+                addr_src: src,
+                addr_dst: if self.v4 {
+                    IpAddr::V4(GROUP_ADDR_V4)
+                } else {
+                    IpAddr::V6(GROUP_ADDR_V6)
+                },
+            },
+        ))
+    }
+}
+
+pub(super) struct SendShim<'a> {
+    real: &'a PktInfoUdpSocket,
+    if_name: String,
+    if_index: Option<u32>,
+    src_ip: Option<IpAddr>,
+}
+impl<'a> SendShim<'a> {
+    pub(super) fn new(
+        real: &'a PktInfoUdpSocket,
+        if_name: &str,
+        if_index: Option<u32>,
+        src_ip: Option<IpAddr>,
+    ) -> Self {
+        Self {
+            real,
+            if_name: if_name.to_string(),
+            if_index,
+            src_ip,
+        }
+    }
+    pub(super) fn set_multicast_if_v4(&self, a: &Ipv4Addr) -> io::Result<()> {
+        if verif::current().is_some() {
+            return Ok(());
+        }
+        self.real.set_multicast_if_v4(a)
+    }
+    pub(super) fn set_multicast_if_v6(&self, i: u32) -> io::Result<()> {
+        if verif::current().is_some() {
+            return Ok(());
+        }
+        self.real.set_multicast_if_v6(i)
+    }
+    pub(super) fn send_to(&self, buf: &[u8], addr: &SockAddr) -> io::Result<usize> {
+        let Some(ctl) = verif::current() else {
+            return self.real.send_to(buf, addr);
+        };
+        ctl.log_egress(OutPkt {
+            t: 0,
+            if_name: self.if_name.clone(),
+            if_index: self.if_index,
+            src_ip: self.src_ip,
+            dst: addr.as_socket().expect("inet dest"),
+            data: buf.to_vec(),
+        });
+        Ok(buf.len())
+    }
+}
+impl std::ops::Deref for SendShim<'_> {
+    type Target = PktInfoUdpSocket;
+    fn deref(&self) -> &PktInfoUdpSocket {
+        self.real
+    }
+}
+
+fn rel(t: u64, now: u64) -> i128 {
+    t as i128 - now as i128
+}
+
+impl Zeroconf {
+    /// Loop-top gate: parks, and on release feeds the injected datagrams through the unchanged
+    /// `handle_read`, then lets the real `poll` return at once.
+    pub(super) fn verif_gate(
+        &mut self,
+        timeout: Option<Duration>,
+        next_ip_check: u64,
+    ) -> Option<Duration> {
+        let Some(ctl) = verif::current() else {
+            return timeout;
+        };
+        ctl.gate(timeout, next_ip_check, &|now| {
+            self.verif_dump(now, next_ip_check)
+        });
+        while self.handle_read(IPV4_SOCK_EVENT_KEY) {}
+        while self.handle_read(IPV6_SOCK_EVENT_KEY) {}
+        Some(Duration::ZERO)
+    }
+
+    /// Canonical, order-independent text of all behaviour-relevant daemon state, with every
+    /// time expressed relative to `now`. Counters (metrics) are excluded on purpose.
+    pub(super) fn verif_dump(&self, now: u64, next_ip_check: u64) -> String {
+        let mut s = String::new();
+        let _ = writeln!(
+            s,
+            "opt len_max={} ipchk={} next_ipchk={} status={:?} loop4={} loop6={} unsol={} p2p={} v4sock={} v6sock={}",
+            self.service_name_len_max,
+            self.ip_check_interval,
+            if next_ip_check == 0 { "off".to_string() } else { rel(next_ip_check, now).to_string() },
+            self.status,
+            self.multicast_loop_v4,
+            self.multicast_loop_v6,
+            self.accept_unsolicited,
+            self.include_apple_p2p,
+            self.ipv4_sock.is_some(),
+            self.ipv6_sock.is_some(),
+        );
+        for sel in self.if_selections.iter() {
+            let _ = writeln!(s, "sel {:?} {}", sel.if_kind, sel.selected);
+        }
+        let mut idx: Vec<_> = self.my_intfs.keys().copied().collect();
+        idx.sort_unstable();
+        for i in idx {
+            let intf = &self.my_intfs[&i];
+            let mut addrs: Vec<String> = intf
+                .addrs
+                .iter()
+                .map(|a| match a {
+                    IfAddr::V4(a) => format!("{}/{}", a.ip, a.prefixlen),
+                    IfAddr::V6(a) => format!("{}/{}", a.ip, a.prefixlen),
+                })
+                .collect();
+            addrs.sort();
+            let _ = writeln!(s, "intf {} {} {:?}", i, intf.name, addrs);
+        }
+        let mut keys: Vec<_> = self.my_services.keys().cloned().collect();
+        keys.sort();
+        for k in keys {
+            let _ = writeln!(s, "svc {} {}", k, self.my_services[&k].verif_dump());
+        }
+        let mut idx: Vec<_> = self.dns_registry_map.keys().copied().collect();
+        idx.sort_unstable();
+        for i in idx {
+            let _ = write!(s, "{}", self.dns_registry_map[&i].verif_dump(i, now));
+        }
+        let _ = write!(s, "{}", self.cache.verif_dump(now));
+        let mut q: Vec<String> = self
+            .service_queriers
+            .iter()
+            .map(|(k, v)| format!("{} disc={} len={}", k, v.is_disconnected(), v.len()))
+            .collect();
+        q.sort();
+        for l in q {
+            let _ = writeln!(s, "querier {l}");
+        }
+        let mut q: Vec<String> = self
+            .hostname_resolvers
+            .iter()
+            .map(|(k, (v, t))| {
+                format!(
+                    "{} disc={} len={} deadline={:?}",
+                    k,
+                    v.is_disconnected(),
+                    v.len(),
+                    t.map(|t| rel(t, now))
+                )
+            })
+            .collect();
+        q.sort();
+        for l in q {
+            let _ = writeln!(s, "resolver {l}");
+        }
+        for r in self.retransmissions.iter() {
+            let cmd = match &r.command {
+                Command::Browse(ty, d, c, l) => {
+                    format!("Browse {ty} {d} {c} disc={}", l.is_disconnected())
+                }
+                Command::ResolveHostname(h, d, l, t) => {
+                    format!("ResolveHostname {h} {d} {t:?} disc={}", l.is_disconnected())
+                }
+                Command::UnregisterResend(p, i, v4) => {
+                    format!("UnregisterResend {} {} {}", crate::verif::wire::hex(p), i, v4)
+                }
+                other => format!("{other:?}"),
+            };
+            let _ = writeln!(s, "rerun {} {}", rel(r.next_time, now), cmd);
+        }
+        let mut t: Vec<i128> = self.timers.iter().map(|Reverse(v)| rel(*v, now)).collect();
+        t.sort_unstable();
+        let _ = writeln!(s, "timers {t:?}");
+        let mut v: Vec<_> = self.pending_resolves.iter().cloned().collect();
+        v.sort();
+        let _ = writeln!(s, "pending {v:?}");
+        let mut v: Vec<_> = self.resolved.iter().cloned().collect();
+        v.sort();
+        let _ = writeln!(s, "resolved {v:?}");
+        let _ = writeln!(
+            s,
+            "monitors {:?}",
+            self.monitors
+                .iter()
+                .map(|m| (m.is_disconnected(), m.len()))
+                .collect::<Vec<_>>()
+        );
+        s
+    }
+}
